@@ -378,7 +378,8 @@ func (d *defaultRouter) Lookup(method, path string) (*MatchedRoute, bool) {
 					// a workaround to handle fragment/composing parameters until they are supported in denco router
 					// check if this parameter is a fragment within a path segment
 					const enclosureSize = 2
-					if xpos := strings.Index(entry.PathPattern, fmt.Sprintf("{%s}", p.Name)) + len(p.Name) + enclosureSize; xpos < len(entry.PathPattern) && entry.PathPattern[xpos] != '/' {
+					idx := strings.Index(entry.PathPattern, fmt.Sprintf("{%s}", p.Name))
+					if xpos := idx + len(p.Name) + enclosureSize; idx >= 0 && xpos < len(entry.PathPattern) && entry.PathPattern[xpos] != '/' {
 						// extract fragment parameters
 						ep := strings.Split(entry.PathPattern[xpos:], "/")[0]
 						pnames, pvalues := decodeCompositParams(p.Name, v, ep, nil, nil)
